@@ -67,8 +67,9 @@ LABIMM = [
 def alphabet(tier):
     syms = (progs.pick(LABIMM, 'lwL', 'addiL', 'addispL', 'liLab', 'luiL') + progs.pick(progs.XFER, 'beq8', 'jal0', 'call') +
             progs.pick(progs.CODE_C, 'addi8') + progs.pick(progs.CODE_N, 'add567') + progs.pick(progs.VAR, 'li1') +
-            progs.pick(progs.DATA, 'dh') + progs.pick(progs.ALIGN, 'al4') + [progs.DEF])
+            progs.pick(progs.DATA, 'dh') + progs.pick(progs.ALIGN, 'al4') + progs.pick(progs.NEGARITH, 'addiNeg', 'dbNeg') + [progs.DEF])
     if tier == 'thorough':
+        syms += progs.pick(progs.NEGARITH, 'liNeg', 'lwNeg', 'addiNeg9')
         syms += progs.pick(LABIMM, 'swL', 'lwspL', 'addi4spnL', 'liregL', 'andiL') + progs.pick(progs.XFER, 'tail', 'bne56')
     return progs.instantiate(syms, ['A'])
 
